@@ -127,7 +127,7 @@ def explore_size(job):
                     'obligations': st['obligations'], 'discharged': st['discharged'], 'groups': groups,
                     'samples': [dict(st['sample'], universe=job['name'])] if st.get('sample') else [],
                     'mir_blocks': rt.STEPS.total, 'wall': time.time() - t0,
-                    'mon_stats': {'evaluations': st['evaluations'], 'jobs_in_largest_graph': st['jobs']}})
+                    'mon_stats': {'evaluations': st['evaluations'], 'jobs_summed_over_universes': st['jobs']}})
     except rt.Unsupported as e:
         out.update({'ok': False, 'error': 'unsupported: %s' % str(e)[:300], 'trace': traceback.format_exc()[-1500:]})
     except Exception as e:
